@@ -753,6 +753,9 @@ class LineEval:
             lb.run(st.body, st.target.id)
         finally:
             self.loop_depth -= 1
+        if lb.first_only is not None:
+            self.event('firstonly', 'every path through the body of the loop over the copies leaves the function in the first round '
+                                    f'(`{unparse(lb.first_only, 40)}`): only copy 0 is ever looked at, so which copy carries number 0 decides the result', lb.first_only, rel)
         # early exits, in body order
         for (cond, kind, payload, node) in lb.exits:
             ex = self.quant('exists_n', idx, cond)
@@ -1729,6 +1732,7 @@ class LoopBody:
         self.count = count
         self.exits = []      # (cond E|True, 'raise'|'return', payload, node)
         self.final = {}
+        self.first_only = None
 
     def run(self, body, target):
         ev, ctx = self.ev, self.ctx
@@ -1803,6 +1807,8 @@ class LoopBody:
         elif isinstance(st, ast.Return):
             v = ev.nofork_expr(st.value, ctx) if st.value is not None else None
             self.exits.append((g, 'return', v, st))
+            if g is True:
+                self.first_only = st       # nothing conditional about it: the first round always leaves
         elif isinstance(st, ast.Raise):
             try:
                 ev.do_raise(st, ctx)
